@@ -241,8 +241,17 @@ func c15(r *mon.Run) {
 		gen.Field("missing"), gen.Chain(gen.Field("o"), gen.StField("missing")), gen.Chain(x(), gen.StIndex(9)), gen.LitJSON("null"), gen.Chain(gen.Field("o"), gen.StField("p")), gen.Chain(x(), gen.StIndex(0)),
 		gen.LitJSON("16777217"), gen.LitJSON("[123456789, 16777217]"),
 		gen.Raw("it's"), gen.MultiList(gen.Raw("a'b"), gen.Field("k")), gen.Chain(x(), gen.StFilter(gen.Cmp("!=", gen.Field("k"), gen.Raw("it's")))),
+		// projections whose right-hand side is null for SOME elements (a null member, a member only every other element has): the
+		// left step drops them, so the right step never sees them - fusing the two steps into one loop would
+		gen.Chain(x(), gen.StListStar(), gen.StField("a")), gen.Chain(x(), gen.StListStar(), gen.StField("h")), gen.Chain(x(), gen.StFlatten(), gen.StField("h")), gen.Chain(x(), gen.StFilter(gen.Field("k")), gen.StField("h")),
+		gen.Chain(gen.Field("o"), gen.StStar(), gen.StField("h")), gen.Chain(x(), gen.StSliceS("1", "", ""), gen.StField("h")), gen.Chain(x(), gen.StSliceS("", "", "-1"), gen.StField("a")), gen.Func("map", gen.ExpRef(gen.Field("h")), x()),
+		gen.Chain(gen.Field("y"), gen.StListStar(), gen.StListStar(), gen.StField("h")), gen.Chain(x(), gen.StListStar(), gen.StMultiList(gen.Field("h"))), gen.Chain(x(), gen.StListStar(), gen.StField("h"), gen.StField("deeper")),
 	}
 	Bs := []*gen.Expr{
+		gen.Chain(nil, gen.StListStar(), gen.StFunc("type", gen.Current())), gen.Chain(nil, gen.StListStar(), gen.StFunc("to_string", gen.Current())), gen.Chain(nil, gen.StListStar(), gen.StFunc("not_null", gen.Current(), gen.LitJSON("0"))),
+		gen.Chain(nil, gen.StFlatten(), gen.StFunc("type", gen.Current())), gen.Chain(nil, gen.StFilter(gen.Cmp("==", gen.Func("type", gen.Current()), gen.Raw("null")))), gen.Chain(nil, gen.StListStar(), gen.StMultiList(gen.Current())),
+		gen.Chain(nil, gen.StSliceS("", "", "-1"), gen.StFunc("type", gen.Current())), gen.Chain(nil, gen.StFilter(gen.Not(gen.Current()))), gen.Func("map", gen.ExpRef(gen.Func("type", gen.Current())), gen.Current()), gen.Chain(nil, gen.StSliceS("1", "", ""), gen.StMultiHash(keyA("v"), []*gen.Expr{gen.Current()})),
+		gen.Chain(nil, gen.StListStar(), gen.StFunc("to_array", gen.Current())), gen.Chain(nil, gen.StStar(), gen.StFunc("type", gen.Current())),
 		gen.Chain(nil, gen.StIndex(0)), gen.Chain(nil, gen.StIndex(1)), gen.Chain(nil, gen.StIndex(-1)), gen.Chain(nil, gen.StIndex(0), gen.StField("k")), gen.Func("length", gen.Current()), gen.Chain(nil, gen.StSliceS("0", "1", "")),
 		gen.Current(), gen.Chain(nil, gen.StListStar()), gen.Chain(nil, gen.StFlatten()), gen.Func("not_null", gen.Current()), gen.Chain(nil, gen.StIndex(0), gen.StIndex(0)), gen.Func("type", gen.Current()),
 		gen.Or(gen.Chain(nil, gen.StIndex(5)), gen.LitJSON("9")), gen.MultiList(gen.Chain(nil, gen.StIndex(0)), gen.Chain(nil, gen.StIndex(-1))),
@@ -264,6 +273,9 @@ func c15(r *mon.Run) {
 					a = nil
 				}
 				arr[i] = map[string]interface{}{"a": a, "k": float64(i + 1)}
+				if i%2 == 0 {
+					arr[i].(map[string]interface{})["h"] = "h" + string(rune('0'+i))
+				}
 			}
 			return arr
 		}
